@@ -121,6 +121,12 @@ def writers_agree(run, ctx):
         n += 1
         if not re.search(r"self\.write_expansion(_vec)?\(cursor,template,captures\)\.expect\(", c):
             run.violation(fam, label, name, H.where(fn), "%s must expand through write_expansion(_vec)(cursor, template, captures), found %s" % (name, c[:160]))
+        # ... on every path: a shortcut that copies the template (or anything else) without scanning it with this
+        # expander's own syntax makes the entry points disagree (e.g. a `$`-only test in front of the Python expander)
+        for p in S.paths_of(fn["body"]):
+            if p.exit in ("fall", "return") and not any(ev.kind == "call" and re.match(r"^self\.write_expansion(_vec)?\(", ev.a or "") for ev in p.events):
+                run.violation(fam, label, name + "/shortcut", H.where(fn), "%s has a path that produces its result without write_expansion(_vec): %s" % (name, p.show()[:160]))
+                break
     fn = S.get_fn(run, ctx, "Captures::expand", fam, label)
     if fn is not None:
         c = H.canon(H.peel(fn["body"]))
